@@ -68,7 +68,7 @@ def load(backend="snarkjs", symbolic=False, quiet=True):
     if not hasattr(be, "process_snark"):
         be.process_snark = None
     e = Env(rt=rt, bo=bo, fx=fx, br=br, ar=ar, la=la, pk=pk, gm=gm, am=am, be=be, backend_name=backend,
-            symbolic=symbolic, P=be.get_modulus(), mods=[rt, bo, fx, br, ar, la, pk, gm, be])
+            symbolic=symbolic, P=be.get_modulus(), mods=[rt, bo, fx, br, ar, la, pk, gm, am, be])
     if be.__name__ != BACKEND_MODULES[backend] and not backend.startswith("zkif"):
         raise RuntimeError("backend module mismatch")
     if backend.startswith("zkif"):
